@@ -321,4 +321,11 @@ def encodeQMsg (m : QMsg) : List Nat :=
   leBytes 8 m.msgType ++ leBytes 8 m.height ++ leBytes 8 m.round ++ leBytes 4 qmsgFixed ++ m.root ++ leBytes 8 m.dataRound ++
     leBytes 4 o6 ++ leBytes 4 o7 ++ m.identifier ++ encodeDyn m.rcj ++ encodeDyn m.pj
 
+/-- `qbft.SignedMessage.MarshalSSZTo` -/
+def encodeSigned (m : SignedMsg) : List Nat :=
+  let o2 := signedFixed + 8 * m.signers.length
+  let o3 := o2 + (encodeQMsg m.message).length
+  m.signature ++ leBytes 4 signedFixed ++ leBytes 4 o2 ++ leBytes 4 o3 ++ (m.signers.map (leBytes 8)).flatten ++
+    encodeQMsg m.message ++ m.fullData
+
 end Ssv.Ssz
